@@ -17,6 +17,7 @@ type HubOp struct {
 	WaitMs int    `json:"waitMs"`          // pause after the op
 	Conc   bool   `json:"conc,omitempty"`  // issue concurrently with the next op (own goroutine)
 	Spell  int    `json:"spell,omitempty"` // 0 = canonical SKI; 1 = upper case; 2 = dashes; 3 = blanks and mixed case
+	Ms     int    `json:"ms,omitempty"`    // slow: delay of the link x->y in ms (0 = fast again)
 }
 
 // Scenario: N hubs, initial registration/visibility, ops, final quiet period.
@@ -239,6 +240,12 @@ func (r *Run) apply(op HubOp) bool {
 		p := f.Proxies[[2]int{op.X, op.Y}]
 		p.SetRefuse(true)
 		go func() { time.Sleep(time.Duration(300+op.WaitMs) * time.Millisecond); p.SetRefuse(false) }()
+	case "slow":
+		// the link x->y becomes slow: connections x opens to y take op.Ms longer to get through
+		if op.X == op.Y {
+			return false
+		}
+		f.Proxies[[2]int{op.X, op.Y}].SetDelay(op.Ms)
 	case "readdr":
 		if op.X == op.Y {
 			return false
